@@ -589,26 +589,26 @@ class Util:
 
         time_string = str(time_string).upper()
 
-        if time_string.endswith('MS') or time_string.endswith('MSEC'):
+        if time_string.endswith('MS'):
             return int(time_string[:-2])
 
         if time_string.endswith('MSEC'):
             return int(time_string[:-4])
 
         if time_string.endswith('D'):
-            return int(float(time_string[:-1]) * 86400 * 1000)
+            return round(float(time_string[:-1]) * 86400 * 1000)
 
         if time_string.endswith('H'):
-            return int(float(time_string[:-1]) * 3600 * 1000)
+            return round(float(time_string[:-1]) * 3600 * 1000)
 
         if time_string.endswith('M'):
-            return int(float(time_string[:-1]) * 60 * 1000)
+            return round(float(time_string[:-1]) * 60 * 1000)
 
         if time_string.endswith('S'):
-            return int(float(time_string[:-1]) * 1000)
+            return round(float(time_string[:-1]) * 1000)
 
         if time_string.endswith('SEC'):
-            return int(float(time_string[:-3]) * 1000)
+            return round(float(time_string[:-3]) * 1000)
 
         return int(time_string)
 
